@@ -105,8 +105,9 @@ class _BaseLSML(MahalanobisMixin):
     for vab, dab, vcd, dcd, w in zip(vab[violations], dabs[violations],
                                      vcd[violations], dcds[violations],
                                      self.w_[violations]):
-      dMetric += w * ((1 - np.sqrt(dcd / dab)) * np.outer(vab, vab) +
-                      (1 - np.sqrt(dab / dcd)) * np.outer(vcd, vcd))
+      # (dcd == 0 only for c == d, and that pair's term does not depend on M)
+      grad_cd = (1 - np.sqrt(dab / dcd)) * np.outer(vcd, vcd) if dcd > 0 else 0.
+      dMetric += w * ((1 - np.sqrt(dcd / dab)) * np.outer(vab, vab) + grad_cd)
     return dMetric
 
 
